@@ -140,6 +140,15 @@ func gen(seed uint64, tier string) Scenario {
 	sc.ArbSeq = allReliable && !sc.Secure && r.Bool(0.3)
 	sc.WQ = r.Pick(8, 16, 64, 256, 256)
 	sc.MaxSize = r.Pick(1, 7, 100, 600, 1200, 1438)
+	// packets at the very limit of the default MaxPacketSize (1472 = 12 header bytes + payload,
+	// minus the 10-byte SRTP tag on secure sessions); hash-derived so that no other choice moves
+	if x := core.HS(seed, "c01.limit", "", 0); x%100 < 20 {
+		if sc.Secure {
+			sc.MaxSize = 1450 - int((x>>8)%2)
+		} else {
+			sc.MaxSize = 1460 - int((x>>8)%4)
+		}
+	}
 	sc.ClockOffS = r.Intn(3600 * 24 * 365 * 30)
 
 	// network
@@ -166,6 +175,15 @@ func gen(seed uint64, tier string) Scenario {
 				sc.Readers[i].StallAtUS = sc.Readers[i].StartUS + r.Intn(dur/2+1)
 				sc.Readers[i].StallUS = r.Range(sc.IntUS*10, sc.IntUS*400)
 			}
+		}
+	}
+	// heavy duplication: most datagrams arrive twice, over a longer run (the receivers' handling
+	// of packets behind the last delivered one)
+	if x := core.HS(seed, "c01.heavydup", "", 0); x%100 < 6 {
+		n.UDPDup = 0.9
+		n.UDPJitUS = max(n.UDPJitUS, 500)
+		if sc.Packets < 120 {
+			sc.Packets = 120 + int((x>>8)%80)
 		}
 	}
 	sc.Net = n
@@ -786,7 +804,8 @@ func onPacket(w *sys.World, sc *Scenario, rs *readerState, written map[fkey][]*w
 		announced = rs.ssrcs[mi]
 	}
 	rs.mu.Unlock()
-	if announced != nil && len(sc.Formats) > mi && sc.Formats[mi] == 1 && pkt.SSRC != *announced && !rs.switched {
+	// (whatever the number of formats of the media: an SSRC that is announced must be the one carried)
+	if announced != nil && len(sc.Formats) > mi && pkt.SSRC != *announced && !rs.switched {
 		w.Fail("c01/ssrc media", "reader %d: SETUP announced ssrc %08x for media %d but packets carry %08x", rs.idx, *announced, mi, pkt.SSRC)
 	}
 }
